@@ -62,6 +62,17 @@ class Builder:
             self.atoms[f"applied_{nm}"] = c._applied
             self.optional_operands.append(c)
             return c, Implies(c._applied, rel)
+        if kind == "contiguous":
+            # an operand whose encoding carries auxiliary variables (sorted copies of the dates)
+            nm = self.fresh("contiguous")
+            return ps.TasksContiguous(name=nm, list_of_tasks=[a.obj, b.obj]), Or(b.s == a.e, a.s == b.e)
+        if kind == "group":
+            # ... (the group's own start / end variables)
+            nm = self.fresh("group")
+            lo, hi = P.int(f"{nm}_lo", ph=1), P.int(f"{nm}_hi", ph=30)
+            lov, hiv = P.v(f"{nm}_lo"), P.v(f"{nm}_hi")
+            return (ps.UnorderedTaskGroup(name=nm, list_of_tasks=[a.obj, b.obj], time_interval=(lo, hi)),
+                    And(a.s >= lov, a.e <= hiv, b.s >= lov, b.e <= hiv))
         if kind == "dontoverlap":
             nm = self.fresh("dontoverlap")
             # documented meaning; the zero-length tie is excluded by the shape (fixed durations > 0)
@@ -377,6 +388,10 @@ def shapes(tier):
     if tier == "thorough":
         for f in d1 + d2:
             out.append(formula_shape(f, optional=True))
+    # operands whose encoding has auxiliary variables, in positive and in negative position
+    for f in [("or", "contiguous", "startat"), ("implies", "p", "group"), ("and", "contiguous", "group"),
+              ("not", "contiguous"), ("not", "group"), ("xor", "contiguous", "p"), ("ite", "p", ("not", "group"), "startat")]:
+        out.append(formula_shape(f))
     for m in (2, 3):
         for kind in ("min", "max", "exact"):
             for n in range(1, m + (2 if kind == "max" else 1)):  # min/exact m+1 of m is infeasible by definition
